@@ -6,6 +6,7 @@ import Fx.Xdr
 import Fx.Lemmas.Advance
 import Fx.Lemmas.Local
 import Fx.Lemmas.Fuel
+import Fx.Lemmas.Shift
 import Fx.Lemmas.EmitPlans
 namespace Fx.C03
 open Fx
@@ -54,5 +55,18 @@ theorem C03_locality_supported (a : Ast) (m : Module) (hs : Supported a = true) 
 theorem C03_fuel_irrelevant (a : Ast) (p : Plans) (name : String) (c : Cur) (f g : Nat) (hfg : f ≤ g)
     (h : evalImpl a p f name c ≠ .outOfFuel) : evalImpl a p g name c = evalImpl a p f name c :=
   evalImpl_fuel_mono a p name c f g hfg h
+
+/-- **C03 (position independence).**  For ALL byte strings, ALL plans, every budget: the same bytes viewed `δ` bytes further into
+    a larger allocation decode to the same outcome — the same error, or the same value in which every opaque leaf is the same
+    window moved by `δ` (`Val.shift`), with the cursor `δ` further as well.  "Nor on where the view sits inside a larger allocation." -/
+theorem C03_position_independent (a : Ast) (p : Plans) (fuel : Nat) (name : String) (off δ : Nat) (data : List Byte) (log : List Ev) :
+    evalImpl a p fuel name ⟨off + δ, data, log⟩ =
+      (evalImpl a p fuel name ⟨off, data, log⟩).shiftWith (Val.shift δ) δ :=
+  (eval_shift a p δ fuel).1 name ⟨off, data, log⟩
+
+/-- what moves and what does not: leaves move, their bytes, all sizes and every other part of the value stay -/
+example : (Val.struct "s" ["a", "b"] (.cons (.u32 7) (.cons (.bytes 4 [1, 2]) .nil))).shift 100 =
+    Val.struct "s" ["a", "b"] (.cons (.u32 7) (.cons (.bytes 104 [1, 2]) .nil)) := by
+  simp [Val.shift, Vals.shift]
 
 end Fx.C03
